@@ -7,9 +7,9 @@ import z3
 from sx import core as S, env as E, npshim, ffi
 
 PROPERTY = "C13"
-REGIONS = ["shadow", "prio", "rank", "first", "last", "min", "max", "1-D", "2-D-axis0", "2-D-axis1", "3-D", "all-zero-column", "tie", "negative-priority",
+REGIONS = ["magnitude-above-2^53", "shadow", "prio", "rank", "first", "last", "min", "max", "1-D", "2-D-axis0", "2-D-axis1", "3-D", "all-zero-column", "tie", "negative-priority",
            "later-row-overrides"]
-BOUNDS = ("every array entry symbolic with |p|<=50; shapes: 1-D n<=4 (thorough 5), 2-D 2x2, 2x3 (thorough also 3x2) on both axes, 3-D 2x2x2 (axis 0, "
+BOUNDS = ("every array entry symbolic with |p|<=50 (and |p|<=2^62 for the 1-D n=3 and 2x2 shapes, where translator validation is biased to adjacent values above 2^53); shapes: 1-D n<=4 (thorough 5), 2-D 2x2, 2x3 (thorough also 3x2) on both axes, 3-D 2x2x2 (axis 0, "
           "thorough); all seven methods; 'shadow' through the real FFI on path representatives (M8)")
 OUTSIDE = "larger arrays; results that do not fit in 64 bits; 3-D arrays with axis != 0; 1-D arrays with an explicit integer axis (compressing a vector along its only axis is not a documented use: every 1-D example uses axis=None)"
 FAMILY = "method x shape x axis"
@@ -36,6 +36,10 @@ def instantiations(tier, seed):
     for me in ("shadow", "prio", "rank"):
         out.append({"shape": [3, 2], "axis": 0, "method": me, "fixed": {"1,0": 0, "1,1": 0}})
         out.append({"shape": [3, 3], "axis": 0, "method": me, "fixed": {"1,0": 0, "1,1": 0, "1,2": 0, "0,2": 0, "2,0": 0, "2,1": 7}})
+    # magnitudes up to 2^62 (numpy float64 is exact only up to 2^53): symbolic part unchanged, translator validation biased to adjacent large values
+    for me in ("shadow", "prio", "rank", "last", "max"):
+        out.append({"shape": [3], "axis": None, "method": me, "big": True})
+        out.append({"shape": [2, 2], "axis": 0, "method": me, "big": True})
     if tier == "quick":
         out.append({"shape": [2, 2, 2], "axis": 0, "method": "first"})
         out.append({"shape": [2, 2, 2], "axis": 0, "method": "max"})
@@ -78,7 +82,8 @@ def run_inst(spec, run):
             fixed = spec.get("fixed") or {}
             for idx in np.ndindex(*shape):
                 key = ",".join(map(str, idx))
-                s = S.K(fixed[key]) if key in fixed else ctx.int("p" + "_".join(map(str, idx)), -50, 50)
+                rng_ = 2 ** 62 if spec.get("big") else 50
+                s = S.K(fixed[key]) if key in fixed else ctx.int("p" + "_".join(map(str, idx)), -rng_, rng_)
                 arr[idx] = s
                 ent[idx] = s
             X = ns.pnd.integer_ndarray(arr) if len(shape) >= 2 else ns.pnd.integer_ndarray(arr, variables=[ns.puan.variable(i) for i in range(shape[0])], index=[ns.puan.variable(i) for i in range(shape[0])])
@@ -211,7 +216,12 @@ def run_inst(spec, run):
                 if len(shape) >= 2 and "later-row-overrides" not in run.regions and ctx.query(z3.Or([z3.And(R_[a_] < R_[b_], zabs(E_[a_]) > zabs(E_[b_]), nz[a_], nz[b_]) for a_, b_ in itertools.permutations(os_, 2) if same(a_, b_)] or [z3.BoolVal(False)]))[0] == "sat":
                     run.region("later-row-overrides")
             run.obligation(ctx, me, z3.Or(viol) if viol else z3.BoolVal(False), conc)
-            run.validate(ctx, conc, lambda m: {"res": [S.model_int(m, res[o]) for o, _ in fb]})
+            ext = None
+            if spec.get("big"):
+                es = [v.e for v in ent.values() if not z3.is_int_value(z3.simplify(v.e))]
+                ext = z3.Or([z3.And(a_ == b_ + 1, b_ >= 2 ** 53) for a_ in es for b_ in es if a_ is not b_] or [z3.BoolVal(False)])
+                run.region("magnitude-above-2^53")
+            run.validate(ctx, conc, lambda m: {"res": [S.model_int(m, res[o]) for o, _ in fb]}, extremes=ext)
             run.sample({"shape": list(shape), "axis": axis, "method": me, "path_condition": [str(z3.simplify(x)) for x in ctx.pc][:6],
                         "result": [str(z3.simplify(w[o])) for o, _ in fb], "ffi_calls": stub.calls})
 
